@@ -49,8 +49,6 @@ fn format(src: &str, width: usize) -> Result<Result<String, usize>, panics::Pani
 /// one oracle violation: (kind, message); kinds are the unqualified signature stems
 struct Violation {
     kind: &'static str,
-    /// output-does-not-parse: the output line of the first parser error
-    err_line: Option<String>,
     panic_sig: Option<String>,
     msg: String,
 }
@@ -92,11 +90,11 @@ fn observe_inner(src: &str, src_fp: &str, width: usize) -> Observed {
     let mut v = vec![];
     let out = match format(src, width) {
         Err(p) => {
-            v.push(Violation { kind: "panic", err_line: None, panic_sig: Some(p.signature()), msg: format!("the formatter panicked: {}", p.describe()) });
+            v.push(Violation { kind: "panic", panic_sig: Some(p.signature()), msg: format!("the formatter panicked: {}", p.describe()) });
             return Observed { violations: v, out: None, again: None };
         }
         Ok(Err(n)) => {
-            v.push(Violation { kind: "format-error", err_line: None, panic_sig: None, msg: format!("pretty_print_cst returned Err ({n} diagnostics) on a text that parses without errors") });
+            v.push(Violation { kind: "format-error", panic_sig: None, msg: format!("pretty_print_cst returned Err ({n} diagnostics) on a text that parses without errors") });
             return Observed { violations: v, out: None, again: None };
         }
         Ok(Ok(s)) => s,
@@ -104,16 +102,16 @@ fn observe_inner(src: &str, src_fp: &str, width: usize) -> Observed {
     // the output parses, to the same tree
     let out_parses = match panics::catch(|| fp::parse_fp(&out)) {
         Err(p) => {
-            v.push(Violation { kind: "output-does-not-parse", err_line: None, panic_sig: None, msg: format!("the parser panicked on the formatter's output: {}", p.describe()) });
+            v.push(Violation { kind: "output-does-not-parse", panic_sig: None, msg: format!("the parser panicked on the formatter's output: {}", p.describe()) });
             false
         }
-        Ok(Err((e, line))) => {
-            v.push(Violation { kind: "output-does-not-parse", err_line: Some(line), panic_sig: None, msg: format!("the output has {e}") });
+        Ok(Err(e)) => {
+            v.push(Violation { kind: "output-does-not-parse", panic_sig: None, msg: format!("the output has {e}") });
             false
         }
         Ok(Ok(out_fp)) => {
             if out_fp != src_fp {
-                v.push(Violation { kind: "ast-changed", err_line: None, panic_sig: None, msg: fp::fp_diff(src_fp, &out_fp) });
+                v.push(Violation { kind: "ast-changed", panic_sig: None, msg: fp::fp_diff(src_fp, &out_fp) });
             }
             true
         }
@@ -135,17 +133,17 @@ fn observe_inner(src: &str, src_fp: &str, width: usize) -> Observed {
         } else {
             ("comment-lost", "a comment of the input is missing from the output")
         };
-        v.push(Violation { kind, err_line: None, panic_sig: None, msg: format!("{what}: input has {} comments, output {}; first difference at comment #{first}: input {:?} / output {:?}", cs.len(), co.len(), show(&cs), show(&co)) });
+        v.push(Violation { kind, panic_sig: None, msg: format!("{what}: input has {} comments, output {}; first difference at comment #{first}: input {:?} / output {:?}", cs.len(), co.len(), show(&cs), show(&co)) });
     }
     // fixed point
     let mut second = None;
     if out_parses {
         match format(&out, width) {
-            Err(p) => v.push(Violation { kind: "panic", err_line: None, panic_sig: Some(p.signature()), msg: format!("the formatter panicked on its own output: {}", p.describe()) }),
-            Ok(Err(_)) => v.push(Violation { kind: "not-idempotent", err_line: None, panic_sig: None, msg: "formatting the output again returns Err".into() }),
+            Err(p) => v.push(Violation { kind: "panic", panic_sig: Some(p.signature()), msg: format!("the formatter panicked on its own output: {}", p.describe()) }),
+            Ok(Err(_)) => v.push(Violation { kind: "not-idempotent", panic_sig: None, msg: "formatting the output again returns Err".into() }),
             Ok(Ok(again)) => {
                 if again != out {
-                    v.push(Violation { kind: "not-idempotent", err_line: None, panic_sig: None, msg: format!("formatting the output again changes it; {}", first_line_diff(&out, &again)) });
+                    v.push(Violation { kind: "not-idempotent", panic_sig: None, msg: format!("formatting the output again changes it; {}", first_line_diff(&out, &again)) });
                     second = Some(again);
                 }
             }
@@ -431,7 +429,7 @@ fn explain_structure(c: &CaseView) -> Result<Vec<Finding>, String> {
             Ok(by_specificity(found))
         }
         Ok(Ok(f)) => Err(format!(" [with the traces of {names:?} undone the output parses, but to another tree: {}]", fp::fp_diff(c.src_fp, &f))),
-        Ok(Err((e, _))) => Err(format!(" [with the traces of {names:?} undone the output still has {e}]")),
+        Ok(Err(e)) => Err(format!(" [with the traces of {names:?} undone the output still has {e}]")),
         Err(p) => Err(format!(" [with the traces of {names:?} undone the parser panics: {}]", p.describe())),
     }
 }
@@ -564,7 +562,12 @@ fn classify(c: &CaseView, v: &Violation, structural: &[Finding]) -> (String, Vec
                 }
             }
         },
-        "comment-lost" | "comment-added" | "comment-reordered" => explain_comment_changes(c),
+        "comment-lost" | "comment-added" | "comment-reordered" => explain_comment_changes(c).map(|mut ids| {
+            // qualifier: a drop site for a loss, the duplication for an addition
+            let dup_first = v.kind == "comment-added";
+            ids.sort_by_key(|f| (*f == KF_HEADER_DUP) != dup_first);
+            ids
+        }),
         // the output is (by an explained defect) another program than the input: its second
         // formatting is not the subject any more
         "not-idempotent" if !structural.is_empty() => Some(structural.to_vec()),
@@ -701,6 +704,19 @@ fn finish(i: Input, cx: &Cx) -> CaseResult {
     if !r.nontrivial {
         r.classes.push("trivial".into());
     }
+    for (on, label) in [
+        (feats.typed_param || feats.param_default, "has:typed-or-default-param"),
+        (feats.record_type_fields || feats.record_pattern_fields, "has:record-type-or-pattern"),
+        (feats.has(SyntaxKind::MatchExpr), "has:match"),
+        (feats.has(SyntaxKind::TypeDecl), "has:type-decl"),
+        (feats.has(SyntaxKind::ModuleDecl), "has:module"),
+        (feats.empty_lambda, "has:empty-lambda"),
+        (feats.if_cond_bare, "has:if-without-paren"),
+    ] {
+        if on {
+            r.classes.push(label.into());
+        }
+    }
     r.classes.extend(i.labels);
     if cx.render || r.is_fail() {
         r.render = Some(json!({"text": clip(i.src, 600), "width": i.width, "indent": i.indent, "out": ob.out.as_deref().map(|o| clip(o, 600))}));
@@ -813,12 +829,16 @@ impl Prop for C14 {
         format!(
             "Cases are (text, line width, indent size) with width in {WIDTHS:?} and indent in {INDENTS:?} (set through the public mimium_fmt::GLOBAL_DATA, as the CLI does, and restored to 4 after each case). \
              Texts: (corpus, exhaustive) every shipped .mmm source for which parse_program reports no error; (mutants) such a source with 1-5 edits chosen on its token stream — ' // cN' before a line break, an own-line '// cN' or '/* cN */', \
-             ' /* cN */ ' in place of inner whitespace, blank lines added/removed, re-indentation, trailing whitespace, a line break replaced by ';' (the tokenizer reads ';' as a line break), runs of spaces/tabs, CRLF line ends, a line split at inner whitespace with or without a '// cN', '/* cN */' squeezed between two adjacent tokens — kept only if the \
-             parser still reports no error and the tree fingerprint equals the unmutated one; (synthetic) 1-5 top-level statements from a grammar of templates (fn with 0-3 plain/typed/defaulted parameters and return types, let with tuple/record patterns, \
-             letrec, if/else expression and statement forms, lambdas, |> and ||> pipes, operator chains of 2-7 operands, nested calls, tuples, arrays, records/incomplete records/record updates, field/projection/index, macro!(), quote/splice, match with \
-             constructor patterns, type/type rec/type alias, mod with pub fn, use, include, #stage), optionally layout-mutated, kept only if error-free. \
+             ' /* cN */ ' in place of inner whitespace, blank lines added/removed, re-indentation, trailing whitespace, a line break replaced by ';' (the tokenizer reads ';' as a line break), runs of spaces/tabs, CRLF line ends, a line split at inner whitespace with or without a '// cN', '/* cN */' squeezed between two adjacent tokens, a comment in front of the file's first token (own line or same line) — kept only if the \
+             parser still reports no error and the tree fingerprint equals the unmutated one; (synthetic) 1-5 top-level statements from a grammar of templates (fn and macro definitions with 0-3 plain/typed/defaulted parameters, trailing commas and return types, let with tuple/record patterns and type annotations, \
+             letrec, assignments to names/fields/elements, if/else expression and statement forms with and without parentheses, lambdas (typed, with return types, without parameters), |> and ||> pipes, operator chains of 2-7 operands over all 16 infix operators, unary -/+ (nested too), \
+             nested and chained calls, tuples (one-element too), arrays, records/incomplete records/record updates, field/projection/index chains, macro!() and qualified m::f!(), quote/splice, match with literal/constructor/tuple patterns, \
+             type/type rec/type alias, types (primitive, tuple, record, array, function, code, union, unit, parenthesised, qualified), inline and external mod, pub, use (single/multiple/wildcard), include, #stage), optionally layout-mutated, kept only if error-free; \
+             half of the programs avoid every construct that hits an already triaged defect. \
              Oracle: pretty_print_cst(text, &None, width) is Ok(out) and does not panic; parse_program(out) reports no error; the structural fingerprint of the lowered Program (every statement/expression/pattern/type/literal/operator/visibility, \
              spans ignored) is the same for text and out; the sequence of comment token texts (trailing whitespace trimmed) is the same; pretty_print_cst(out, &None, width) == Ok(out). \
+             Known findings: a structural violation is attributed to triaged defects only if undoing exactly their token-level traces in the output makes it parse to the input's tree; a comment violation only if the output's comment sequence is the one \
+             those defects predict; such cases are discarded and counted, every other stage of the same case is still judged. \
              Non-trivial = the text has a comment or a line longer than the width; distinct by hash of (text, width, indent)."
         )
     }
